@@ -209,7 +209,16 @@ class BaseShapeProtocol(Protocol):
             List of Coordinates
         """
         coords = _RE_COORD.findall(wkt_coords)
-        zm = _RE_ZM.findall(wkt_str) or ['ZM']
+        zm = _RE_ZM.findall(wkt_str)
+
+        # Every coordinate of a geometry has as many numbers as its first one, and as the
+        # Z/M tag (if there is one) announces
+        first = _RE_COORD.search(wkt_str)
+        dims = len(first.group().split(' ')) if first else 2
+        if (zm and dims != 2 + len(zm[0])) or any(len(x.split(' ')) != dims for x in coords):
+            raise ValueError(f'Inconsistent coordinate dimensions in WKT: {wkt_str}')
+
+        zm = zm or ['ZM']
         parsed_coords = [Coordinate.from_wkt(coord, zm_order=zm[0]) for coord in coords]
         return parsed_coords
 
